@@ -14,11 +14,11 @@
 //! with every f64 printed exactly as `<mantissa>:<exp2>` (value = m * 2^e),
 //! `inf`, `-inf` or `nan`.
 //!
-//! Mode `run`: `<sample_count> <sample_size> <threads> <counter_mode> <alloc> <seed>`: a real `Bencher`
+//! Mode `run`: `<sample_count> <sample_size|t> <threads> <opt/pre/inp/post counter kinds> <alloc> <seed>`: a real `Bencher`
 //! run (OS timer; this binary installs `AllocProfiler` as the global allocator so that
 //! allocation info is recorded per sample), then `compute_stats` on what the run left
-//! behind.  Prints `IN <the recorded samples as a stats case> OUT <stats line>`: the
-//! model is driven by the recording.
+//! behind.  Prints `IN <the recorded samples as a stats case> EXP <counts of the inputs each
+//! sample was given> OUT <stats line>`: the model is driven by the recording.
 //!
 //! Mode `periter`: `<sample_size> <c0,c1,..>`: runs a real `Bencher` with
 //! `with_inputs` + `input_counter` over the given per-input counts (one sample)
@@ -96,26 +96,62 @@ fn join<T: ToString>(v: &[T]) -> String {
     v.iter().map(|x| x.to_string()).collect::<Vec<_>>().join(",")
 }
 
-/// A real run; see the module documentation.
+const KINDS: [char; 4] = ['b', 'c', 'y', 'i'];
+/// Count of an input value `n` for kind index `k` (what the `input_counter` closures return).
+const MULT: [u64; 4] = [1, 2, 5, 3];
+
+fn input_value(i: u64) -> usize {
+    (i.wrapping_mul(0x9E3779B97F4A7C15) >> 56) as usize + 1
+}
+
+fn kinds_of(spec: &str) -> Vec<usize> {
+    spec.chars().filter(|c| *c != '-').map(|c| KINDS.iter().position(|k| *k == c).expect("kind")).collect()
+}
+
+/// A real run; see the module documentation.  `spec` = `opt/pre/inp/post`, each a set of kind
+/// letters (b bytes, c chars, y cycles, i items) or `-`: constant counters given through the
+/// options, constant counters set with `Bencher::counter` before `with_inputs`, per-input
+/// counters (`input_counter`), constant counters set with `Bencher::counter` after `input_counter`.
 fn run(line: &str) -> String {
-    use std::sync::atomic::{AtomicUsize, Ordering};
+    use divan::counter::{BytesCount, CharsCount, CyclesCount, ItemsCount};
+    use std::sync::atomic::{AtomicU64, Ordering};
     let t = hxlib::toks(line);
     assert!(t.len() == 6, "run: 6 tokens");
     let sample_count: u32 = t[0].parse().unwrap();
-    let sample_size: u32 = t[1].parse().unwrap();
+    let sample_size: Option<u32> = if t[1] == "t" { None } else { Some(t[1].parse().unwrap()) };
     let threads: usize = t[2].parse().unwrap();
-    let counter_mode: u32 = t[3].parse().unwrap();
+    let spec: Vec<&str> = t[3].split('/').collect();
+    assert!(spec.len() == 4);
+    let (opt, pre, inp, post) = (kinds_of(spec[0]), kinds_of(spec[1]), kinds_of(spec[2]), kinds_of(spec[3]));
     let alloc: bool = t[4] == "1";
     let seed: u64 = t[5].parse().unwrap();
+    let konst = |base: u32, k: usize| -> u32 { base + 7 * k as u32 + (seed % 5) as u32 };
+
     let mut options = divan::__private::BenchOptions::default();
     options.sample_count = Some(sample_count);
-    options.sample_size = Some(sample_size);
+    options.sample_size = sample_size;
+    if sample_size.is_none() {
+        options.max_time = Some(std::time::Duration::from_millis(200));
+    }
+    for &k in &opt {
+        match k {
+            0 => options.counters.insert(BytesCount::new(konst(1000, k))),
+            1 => options.counters.insert(CharsCount::new(konst(1000, k))),
+            2 => options.counters.insert(CyclesCount::new(konst(1000, k))),
+            _ => options.counters.insert(ItemsCount::new(konst(1000, k))),
+        };
+    }
     let cfg = v::RunConfig { options: &options, threads, is_test: false, tsc_frequency: None, compute_stats: true };
-    let next = AtomicUsize::new(seed as usize);
-    // Input values: a deterministic sequence depending on the seed only.
+    // Which inputs a sample gets is only known for one thread and an explicit sample size;
+    // otherwise every input is the same value.
+    let uniform = threads > 1 || sample_size.is_none();
+    let next = AtomicU64::new(seed);
     let gen = || {
-        let i = next.fetch_add(1, Ordering::Relaxed) as u64;
-        (i.wrapping_mul(0x9E3779B97F4A7C15) >> 56) as usize + 1
+        if uniform {
+            input_value(seed)
+        } else {
+            input_value(next.fetch_add(1, Ordering::Relaxed))
+        }
     };
     let work = move |n: usize| -> usize {
         if alloc {
@@ -129,15 +165,34 @@ fn run(line: &str) -> String {
             n
         }
     };
-    let dump = v::run_bencher(&cfg, &|b: divan::Bencher| match counter_mode {
-        0 => b.with_inputs(gen).bench_values(work),
-        1 => b.counter(divan::counter::ItemsCount::new(5u32)).with_inputs(gen).bench_values(work),
-        2 => b.with_inputs(gen).input_counter(|n: &usize| divan::counter::BytesCount::new(*n)).bench_values(work),
-        _ => b
-            .counter(divan::counter::CharsCount::new(9u32))
-            .with_inputs(gen)
-            .input_counter(|n: &usize| divan::counter::ItemsCount::new(*n * 3))
-            .bench_values(work),
+    let dump = v::run_bencher(&cfg, &|b: divan::Bencher| {
+        let mut b = b;
+        for &k in &pre {
+            b = match k {
+                0 => b.counter(BytesCount::new(konst(2000, k))),
+                1 => b.counter(CharsCount::new(konst(2000, k))),
+                2 => b.counter(CyclesCount::new(konst(2000, k))),
+                _ => b.counter(ItemsCount::new(konst(2000, k))),
+            };
+        }
+        let mut b = b.with_inputs(gen);
+        for &k in &inp {
+            b = match k {
+                0 => b.input_counter(|n: &usize| BytesCount::new(*n as u64 * MULT[0])),
+                1 => b.input_counter(|n: &usize| CharsCount::new(*n as u64 * MULT[1])),
+                2 => b.input_counter(|n: &usize| CyclesCount::new(*n as u64 * MULT[2])),
+                _ => b.input_counter(|n: &usize| ItemsCount::new(*n as u64 * MULT[3])),
+            };
+        }
+        for &k in &post {
+            b = match k {
+                0 => b.counter(BytesCount::new(konst(3000, k))),
+                1 => b.counter(CharsCount::new(konst(3000, k))),
+                2 => b.counter(CyclesCount::new(konst(3000, k))),
+                _ => b.counter(ItemsCount::new(konst(3000, k))),
+            };
+        }
+        b.bench_values(work)
     });
     let d = if dump.durations.is_empty() { "-".to_string() } else { join(&dump.durations) };
     let a = if dump.alloc_infos.is_empty() {
@@ -157,11 +212,38 @@ fn run(line: &str) -> String {
     };
     let c = dump.counts.iter().map(|k| join(k)).collect::<Vec<_>>().join("|");
     let u: String = dump.uses_input_counts.iter().map(|&b| if b { '1' } else { '0' }).collect();
+    // The counts of the inputs each recorded sample was given, per kind with an input counter:
+    // samples joined by `;`, a sample = comma list of counts, `v^k` = k inputs of count v.
+    let n = dump.durations.len() as u64;
+    let s = dump.sample_size as u64;
+    let exp: Vec<String> = (0..4)
+        .map(|k| {
+            if !inp.contains(&k) {
+                "*".to_string()
+            } else if n == 0 {
+                "-".to_string()
+            } else {
+                (0..n)
+                    .map(|j| {
+                        if uniform {
+                            format!("{}^{}", input_value(seed) as u64 * MULT[k], s)
+                        } else {
+                            (0..s)
+                                .map(|t| (input_value(seed + j * s + t) as u64 * MULT[k]).to_string())
+                                .collect::<Vec<_>>()
+                                .join(",")
+                        }
+                    })
+                    .collect::<Vec<_>>()
+                    .join(";")
+            }
+        })
+        .collect();
     let out = match &dump.stats {
         Some(st) => stats_line(st),
         None => format!("nostats did_run={}", dump.did_run),
     };
-    format!("IN {} {} {} {} {} OUT {}", dump.sample_size, d, a, c, u, out)
+    format!("IN {} {} {} {} {} EXP {} OUT {}", dump.sample_size, d, a, c, u, exp.join("|"), out)
 }
 
 fn stats(line: &str) -> String {
